@@ -57,6 +57,15 @@ Theorem c06_duplicate_ignored : forall evs id ty m ty' m',
 Proof. exact duplicate_ignored. Qed.
 Print Assumptions c06_duplicate_ignored.
 
+(* ... and so does any number of further responses bearing that id, identical copies or not: none of
+   them is delivered to anybody (the state, hence every caller's channel and status, is unchanged)
+   and, by c06_dispatch_never_blocks below, none of them can block the dispatcher. *)
+Theorem c06_duplicate_responses_ignored : forall evs id ty m (ps : list (N * N)),
+  let s1 := wstep (wrun winit evs) (Respond id ty m) in
+  wrun s1 (map (fun p => Respond id (fst p) (snd p)) ps) = s1.
+Proof. exact duplicates_ignored. Qed.
+Print Assumptions c06_duplicate_responses_ignored.
+
 (* Cancellation is isolated: deleting every cancellation of caller c from the history changes the
    status of no other caller. *)
 Theorem c06_cancel_isolated : forall evs c c',
